@@ -43,6 +43,13 @@ pub struct WalletSide {
   pub broadcasts: Vec<Transaction>,
   pub coin_selections: u64,
   pub adversarial_picks: u64,
+  /// every transaction handed to sendrawtransaction, accepted or not
+  pub send_attempts: Vec<Transaction>,
+  /// every PSBT the wallet asked the node to sign (walletprocesspsbt, sign = true)
+  pub sign_requests: Vec<Psbt>,
+  /// what the signing replies do to the next offer (consumed by finalizepsbt)
+  pub sign_fault: Option<crate::scenario::SignFault>,
+  pub sign_faults_fired: u64,
 }
 
 pub fn wallet_script(wallet: &str, k: u32) -> ScriptBuf {
@@ -562,6 +569,7 @@ impl World {
           .and_then(|s| deserialize_hex(s).ok())
           .ok_or_else(|| err(-22, "TX decode failed"));
         tx.and_then(|tx| {
+          self.wallet_side.send_attempts.push(tx.clone());
           let sender = wallet.map(|w| w.to_string());
           let txid = self.accept_to_mempool(tx)?;
           if let Some(name) = sender
@@ -582,6 +590,9 @@ impl World {
         match decoded {
           None => Err(err(-22, "TX decode failed")),
           Some(mut psbt) => {
+            if sign {
+              self.wallet_side.sign_requests.push(psbt.clone());
+            }
             let view = self.spendable_view();
             let scripts = wallet
               .and_then(|w| self.wallet_side.wallets.get(w))
@@ -600,6 +611,20 @@ impl World {
                 && input.witness_utxo.as_ref().is_some_and(|o| scripts.contains(&o.script_pubkey))
               {
                 input.final_script_witness = Some(Self::fake_witness(&p));
+              }
+            }
+            if sign && self.wallet_side.sign_fault == Some(crate::scenario::SignFault::AlterOnProcess) {
+              // a signature of an input that is not the wallet's comes back changed
+              for input in psbt.inputs.iter_mut() {
+                let foreign = input.witness_utxo.as_ref().is_some_and(|o| !scripts.contains(&o.script_pubkey));
+                if foreign && let Some(w) = &mut input.final_script_witness {
+                  let mut changed = Witness::new();
+                  changed.push([0x77u8; 64]);
+                  *w = changed;
+                  self.wallet_side.sign_fault = None;
+                  self.wallet_side.sign_faults_fired += 1;
+                  break;
+                }
               }
             }
             let complete = psbt
@@ -636,6 +661,49 @@ impl World {
                 }
                 if let Some(s) = &i.final_script_sig {
                   tx.input[n].script_sig = s.clone();
+                }
+              }
+              if let Some(fault) = self.wallet_side.sign_fault {
+                use crate::scenario::SignFault::*;
+                let scripts = wallet
+                  .and_then(|w| self.wallet_side.wallets.get(w))
+                  .map(|w| w.scripts.clone())
+                  .unwrap_or_default();
+                let foreign = psbt
+                  .inputs
+                  .iter()
+                  .position(|i| i.witness_utxo.as_ref().is_some_and(|o| !scripts.contains(&o.script_pubkey)));
+                let fired = match (fault, foreign) {
+                  (AlterOnFinalize, Some(n)) => {
+                    let mut changed = Witness::new();
+                    changed.push([0x78u8; 64]);
+                    tx.input[n].witness = changed;
+                    tx.input[n].script_sig = ScriptBuf::new();
+                    true
+                  }
+                  (MoveToScriptSig, Some(n)) if !tx.input[n].witness.is_empty() => {
+                    let sig = tx.input[n].witness.iter().next().map(|s| s.to_vec()).unwrap_or_default();
+                    let mut b = bitcoin::script::PushBytesBuf::new();
+                    let _ = b.extend_from_slice(&sig);
+                    tx.input[n].script_sig = bitcoin::script::Builder::new().push_slice(b).into_script();
+                    tx.input[n].witness = Witness::new();
+                    true
+                  }
+                  (ExtraInput, _) => {
+                    let mut extra = tx.input[0].clone();
+                    extra.previous_output.vout = extra.previous_output.vout.wrapping_add(7);
+                    tx.input.push(extra);
+                    true
+                  }
+                  (DropInput, _) if tx.input.len() > 1 => {
+                    tx.input.pop();
+                    true
+                  }
+                  _ => false,
+                };
+                if fired {
+                  self.wallet_side.sign_fault = None;
+                  self.wallet_side.sign_faults_fired += 1;
                 }
               }
               Ok(json!({"hex": serialize_hex(&tx), "complete": true}))
